@@ -5,6 +5,7 @@ package c02
 import (
 	"encoding/hex"
 	"fmt"
+	"iter"
 	"math/bits"
 	"reflect"
 	"sort"
@@ -51,7 +52,7 @@ func init() {
 			}
 			return len(c.Lines) > 6 && ((grow && rm) || !hooks)
 		},
-		Rule:     "op sequences (set/setnx/setx/get/getnode/setnode/rm/clear/init/len/head/keys/values/range/all/rfrom/rrange with early stop, walk/walkfrom through Head()/GetNode()+Next(), a node handle kept across operations: hold/held/heldset/heldwalk) on SkipList[int|string,int] (zero value and New) and SkipListWithCmp (natural, reverse, modular-then-value / length-then-bytes total orders, comparators answering with arbitrary magnitudes: a-b, 7(a-b), sign·(1+hash), byte difference; and the weak orders k>>1 / length-only that identify distinct keys) with forced tower heights; wave-3 streams: `large` (2 000–5 000 keys through bulk fill/rmrange with natural and forced-tall towers, removal desc/strided/asc, Clear+refill cycles, range bounds around every 1000th key, a node handle kept throughout; towers compared as chain lengths and validated in place), `history` (4–12 Clear/Init/drain+refill cycles with handles), `magnitude` (int64 extremes, strings of length 0/1/1000, rare random-source words 0, 1, 2^31, 2^32-1, 2^63 …); non-trivial = ≥ 6 ops with at least one top-level growth and one successful removal; distinct by hash of the op list",
+		Rule:     "op sequences (set/setnx/setx/get/getnode/setnode/rm/clear/init/len/head/keys/values/range/all/rfrom/rrange with early stop, walk/walkfrom through Head()/GetNode()+Next(), a node handle kept across operations: hold/held/heldset/heldwalk) on SkipList[int|string,int] (zero value and New) and SkipListWithCmp (natural, reverse, modular-then-value / length-then-bytes total orders, comparators answering with arbitrary magnitudes: a-b, 7(a-b), sign·(1+hash), byte difference; and the weak orders k>>1 / length-only that identify distinct keys) with forced tower heights; wave-4 stream `handles`: iter.Seq2 values from All() kept in slots (obtained on the zero value before the first Set, before Clear/Init/removals) and ranged afterwards fully / with early break and again / nested over themselves / by two alternating iter.Pull2 cursors; wave-3 streams: `large` (2 000–5 000 keys through bulk fill/rmrange with natural and forced-tall towers, removal desc/strided/asc, Clear+refill cycles, range bounds around every 1000th key, a node handle kept throughout; towers compared as chain lengths and validated in place), `history` (4–12 Clear/Init/drain+refill cycles with handles), `magnitude` (int64 extremes, strings of length 0/1/1000, rare random-source words 0, 1, 2^31, 2^32-1, 2^63 …); non-trivial = ≥ 6 ops with at least one top-level growth and one successful removal; distinct by hash of the op list",
 		Classify: classify,
 		Facts:    facts,
 		Extras:   []core.Extra{{Name: "huge-lists-go-oracle", Run: extraHuge}},
@@ -313,7 +314,11 @@ func genHistory(r *core.Rand, tier string) core.Case {
 		lines = append(lines, "keys", "held")
 		switch r.Intn(4) {
 		case 0:
-			lines = append(lines, "init")
+			if kind == "cmp" && r.Bool() {
+				lines = append(lines, "initcmp "+[]string{"nat", "rev", "mod3", "half", "sgnhash"}[r.Intn(5)])
+			} else {
+				lines = append(lines, "init")
+			}
 		case 1:
 			lines = append(lines, "clear", "clear")
 		case 2:
@@ -396,8 +401,91 @@ func genMagnitude(r *core.Rand, tier string) core.Case {
 	return core.Case{Lines: lines, Tag: "magnitude"}
 }
 
+// genHandles: iter.Seq2 values obtained from All() and kept (class "handle reuse"): obtained on
+// the zero value before the first Set, before Clear / Init / removals, then ranged afterwards —
+// fully, with an early break and again, nested over itself, through two alternating iter.Pull2
+// cursors; the same slot ranged again after further mutations. A held Seq is a closure over the
+// list: every range enumerates the bindings the list has at that moment.
+func genHandles(r *core.Rand, tier string) core.Case {
+	kind := []string{"zero", "zero", "new", "cmp", "cmp"}[r.Intn(5)]
+	kt, cmp := "int", "nat"
+	if kind == "cmp" {
+		cmp = []string{"nat", "rev", "mod3", "half", "sgnhash", "diff"}[r.Intn(6)]
+	}
+	lines := []string{fmt.Sprintf("@ C02 %s %s %s %s", kind, kt, cmp, dumpFlag())}
+	span := r.Range(3, 10)
+	val := 100
+	key := func() int { return r.Range(0, span) }
+	set := func() {
+		val++
+		h := r.Range(1, 5)
+		if r.Chance(10) {
+			h = r.Range(6, 32)
+		}
+		lines = append(lines, fmt.Sprintf("set %d %d %d", key(), val, wordFor(r, h)))
+	}
+	use := func() {
+		k := r.Intn(3)
+		switch r.Intn(5) {
+		case 0:
+			lines = append(lines, fmt.Sprintf("seqrange %d %d", k, r.Range(0, 3)))
+		case 1:
+			lines = append(lines, fmt.Sprintf("seqtwice %d %d", k, r.Range(1, 3)))
+		case 2:
+			lines = append(lines, fmt.Sprintf("seqnest %d %d", k, r.Range(1, 4)))
+		case 3:
+			lines = append(lines, fmt.Sprintf("pull2 %d %d", k, r.Range(0, 3)))
+		case 4:
+			lines = append(lines, fmt.Sprintf("seqrange %d 0", k), fmt.Sprintf("seqrange %d 0", k))
+		}
+	}
+	if r.Chance(60) {
+		lines = append(lines, "seq 0") // before anything is in the list (zero value: before the lazy init)
+	}
+	for phase, phases := 0, r.Range(2, 5); phase < phases; phase++ {
+		for i, m := 0, r.Range(1, 6); i < m; i++ {
+			set()
+		}
+		if r.Chance(70) {
+			lines = append(lines, fmt.Sprintf("seq %d", r.Intn(3)))
+		}
+		for i, m := 0, r.Range(1, 3); i < m; i++ {
+			use()
+		}
+		// a structural change, then the OLD handles again
+		switch r.Intn(5) {
+		case 0:
+			lines = append(lines, "clear")
+		case 1:
+			if kind == "cmp" && r.Bool() {
+				lines = append(lines, "initcmp "+[]string{"nat", "rev", "mod3", "half", "sgnhash", "diff"}[r.Intn(6)])
+			} else {
+				lines = append(lines, "init")
+			}
+		case 2:
+			for k := 0; k <= span; k++ {
+				if r.Chance(60) {
+					lines = append(lines, fmt.Sprintf("rm %d", k))
+				}
+			}
+		case 3:
+			lines = append(lines, fmt.Sprintf("rm %d", key()), fmt.Sprintf("rm %d", key()))
+		case 4:
+			set()
+		}
+		for i, m := 0, r.Range(1, 3); i < m; i++ {
+			use()
+		}
+	}
+	lines = append(lines, "seqrange 0 0", "seqrange 1 0", "seqrange 2 0", "all 0", "len")
+	return core.Case{Lines: lines, Tag: "handles"}
+}
+
 func gen(r *core.Rand, tier string) core.Case {
-	// wave-3 streams: a light share in quick, a larger one in thorough (and on anchor drift,
+	if r.Chance(6) {
+		return genHandles(r, tier)
+	}
+	// wave-4 stream `handles`: iter.Seq2 values from All() kept in slots (obtained on the zero value before the first Set, before Clear/Init/removals) and ranged afterwards fully / with early break and again / nested over themselves / by two alternating iter.Pull2 cursors; wave-3 streams: a light share in quick, a larger one in thorough (and on anchor drift,
 	// when core asks for the thorough generator)
 	share := 1 // per mille of `large`
 	if tier == "thorough" {
@@ -478,7 +566,7 @@ func gen(r *core.Rand, tier string) core.Case {
 	}
 	for i := 0; i < n; i++ {
 		val++
-		switch r.Pick(30, 9, 7, 14, 8, 3, 3, 4, 1, 1, 2, 2, 2, 2, 2, 5, 5, 2, 2, 3, 3, 2, 2) {
+		switch r.Pick(30, 9, 7, 14, 8, 3, 3, 4, 1, 1, 2, 2, 2, 2, 2, 5, 5, 2, 2, 3, 3, 2, 2, 2, 2, 1, 1, 1) {
 		case 0:
 			lines = append(lines, fmt.Sprintf("set %s %d %d", key(), val, wordFor(r, height())))
 		case 1:
@@ -529,6 +617,16 @@ func gen(r *core.Rand, tier string) core.Case {
 			lines = append(lines, fmt.Sprintf("heldset %d", val))
 		case 22:
 			lines = append(lines, "heldwalk")
+		case 23:
+			lines = append(lines, fmt.Sprintf("seq %d", r.Intn(4)))
+		case 24:
+			lines = append(lines, fmt.Sprintf("seqrange %d %d", r.Intn(4), stop()))
+		case 25:
+			lines = append(lines, fmt.Sprintf("seqtwice %d %d", r.Intn(4), r.Range(1, 4)))
+		case 26:
+			lines = append(lines, fmt.Sprintf("seqnest %d %d", r.Intn(4), r.Range(1, 4)))
+		case 27:
+			lines = append(lines, fmt.Sprintf("pull2 %d %d", r.Intn(4), r.Range(0, 3)))
 		}
 	}
 	return core.Case{Lines: lines, Tag: tag}
@@ -564,6 +662,12 @@ func corpus() []core.Case {
 		core.Case{Lines: []string{"@ C02 cmp int diff " + dumpFlag(), "set 1 1 1", "set 5 2 0", "set 9 3 1073741824", "rrange 0 3 0", "rrange 1 6 0", "rrange 5 5 0", "rfrom 4 0", "get 9", "rm 5", "rrange 0 7 0"}, Tag: "corpus-magnitude"},
 		core.Case{Lines: []string{"@ C02 cmp int sgnhash " + dumpFlag(), "set 1 1 1", "set 2 2 0", "set 3 3 1073741824", "set 4 4 0", "rrange 0 2 0", "rrange 1 3 0", "rrange 2 4 0", "rrange 0 4 0", "rfrom 3 0", "getnode 2"}, Tag: "corpus-magnitude"},
 		core.Case{Lines: []string{"@ C02 cmp str bytesdiff " + dumpFlag(), "set 61 1 1", "set 7a 2 0", "set 6162 3 1073741824", "rrange - 62 0", "rrange 61 7a 0", "rrange 61 6163 0", "rfrom 6161 0", "keys"}, Tag: "corpus-magnitude"},
+		// held iter.Seq2 values: obtained on the zero value before the first Set / before Clear / before Init, ranged
+		// after; ranged twice, nested over itself, two alternating Pull2 cursors
+		core.Case{Lines: []string{"@ C02 zero int nat " + dumpFlag(), "seq 0", "seqrange 0 0", "set 2 7 1073741824", "set 1 8 0", "seqrange 0 0", "seq 1", "clear", "seqrange 0 0", "seqrange 1 0", "set 3 9 0", "seqrange 1 0", "seqtwice 1 1", "init", "set 4 1 0", "set 5 2 0", "seqrange 0 0", "seqnest 1 2", "pull2 0 0", "pull2 1 1"}, Tag: "corpus-handles"},
+		core.Case{Lines: []string{"@ C02 cmp int rev " + dumpFlag(), "set 1 1 0", "set 2 2 1073741824", "set 3 3 0", "seq 0", "seqnest 0 3", "pull2 0 0", "seqtwice 0 2", "seqrange 0 0", "init", "seqrange 0 0", "set 9 9 0", "seqnest 0 1", "pull2 0 2"}, Tag: "corpus-handles"},
+		// re-configuration: Init with another comparator (ascending -> descending -> key-identifying)
+		core.Case{Lines: []string{"@ C02 cmp int nat " + dumpFlag(), "set 1 1 0", "set 2 2 1073741824", "set 3 3 0", "seq 0", "keys", "initcmp rev", "len", "set 1 1 0", "set 2 2 1073741824", "set 3 3 0", "keys", "rfrom 2 0", "rrange 3 1 0", "seqrange 0 0", "initcmp half", "set 4 4 0", "set 5 5 0", "keys", "seqrange 0 0"}, Tag: "corpus-reconfig"},
 		// node handles: traversal by Next(), a handle kept across inserts/removals of other keys
 		core.Case{Lines: []string{"@ C02 new int nat " + dumpFlag(), "walk", "set 5 1 536870912", "set 3 2 1073741824", "set 8 3 0", "walk", "walkfrom 5", "walkfrom 4", "hold 5", "rm 3", "set 6 4 1", "set 9 5 0", "held", "heldwalk", "heldset 42", "get 5", "rm 8", "heldwalk", "rm 5", "held", "heldwalk", "hold 1", "held"}, Tag: "corpus"},
 	)
@@ -586,12 +690,14 @@ type run[K any] struct {
 	show      func(K) string
 	showRV    func(reflect.Value) string
 	dumpOn    bool
-	vdump     bool        // large lists: validate the towers in place, print chain lengths only
-	ofInt     func(int) K // bulk operations (int keys only)
-	mismatch  bool        // the unforced height of the lazy-init insert differs from what the line asks for
+	vdump     bool                        // large lists: validate the towers in place, print chain lengths only
+	ofInt     func(int) K                 // bulk operations (int keys only)
+	cmpTable  func(string) func(K, K) int // comparators by name (initcmp)
+	mismatch  bool                        // the unforced height of the lazy-init insert differs from what the line asks for
 	structBad string
-	halted    bool         // the reflected towers are damaged: no further call into the real code
-	held      *nodeView[K] // node handle kept by `hold`
+	halted    bool                 // the reflected towers are damaged: no further call into the real code
+	held      *nodeView[K]         // node handle kept by `hold`
+	seqs      [4]iter.Seq2[K, int] // iter.Seq2 values kept by `seq k`
 }
 
 func (r *run[K]) isHalted() bool { return r.halted }
@@ -816,6 +922,109 @@ func (r *run[K]) step(t []string) string {
 		}
 		n.setValue(v)
 		return "ok"
+	case "seq", "seqrange", "seqtwice", "seqnest", "pull2":
+		want := 3
+		if t[0] == "seq" {
+			want = 2
+		}
+		if len(t) != want {
+			return "bad-op"
+		}
+		k, err := strconv.Atoi(t[1])
+		if err != nil || k < 0 || k > 3 {
+			return "bad-op"
+		}
+		if t[0] == "seq" {
+			r.seqs[k] = l.allSeq()
+			return "ok"
+		}
+		n, err := strconv.Atoi(t[2])
+		if err != nil || n < 0 || (n == 0 && (t[0] == "seqtwice" || t[0] == "seqnest")) {
+			return "bad-op"
+		}
+		seq := r.seqs[k]
+		if seq == nil {
+			return "none"
+		}
+		limit := l.length() + 1000 // a traversal that does not end is reported, not waited for
+		switch t[0] {
+		case "seqrange":
+			var xs []kv[K]
+			for k, v := range seq {
+				xs = append(xs, kv[K]{k, v})
+				if len(xs) == n {
+					break
+				}
+				if len(xs) > limit {
+					return "seq-does-not-terminate"
+				}
+			}
+			return r.kvs(xs)
+		case "seqtwice":
+			var xs, ys []kv[K]
+			for k, v := range seq {
+				xs = append(xs, kv[K]{k, v})
+				if len(xs) == n {
+					break
+				}
+			}
+			for k, v := range seq {
+				ys = append(ys, kv[K]{k, v})
+				if len(ys) > limit {
+					return "seq-does-not-terminate"
+				}
+			}
+			return r.kvs(xs) + " ; " + r.kvs(ys)
+		case "seqnest":
+			var outer []kv[K]
+			var counts []string
+			for k, v := range seq {
+				outer = append(outer, kv[K]{k, v})
+				c := 0
+				for range seq {
+					c++
+					if c > limit {
+						return "seq-does-not-terminate"
+					}
+				}
+				counts = append(counts, strconv.Itoa(c))
+				if len(outer) == n || len(outer) > limit {
+					break
+				}
+			}
+			return "outer=" + r.kvs(outer) + " inner=" + strings.Join(counts, ",")
+		default: // pull2
+			next1, stop1 := iter.Pull2(seq)
+			next2, stop2 := iter.Pull2(seq)
+			defer stop1()
+			defer stop2()
+			var xs, ys []kv[K]
+			done1, done2 := false, false
+			for !done1 || !done2 {
+				if !done1 {
+					if k, v, ok := next1(); ok {
+						xs = append(xs, kv[K]{k, v})
+						if len(xs) == n {
+							stop1()
+							done1 = true
+						}
+					} else {
+						done1 = true
+					}
+				}
+				if !done2 {
+					if k, v, ok := next2(); ok {
+						ys = append(ys, kv[K]{k, v})
+					} else {
+						done2 = true
+					}
+				}
+				if len(xs) > limit || len(ys) > limit {
+					return "seq-does-not-terminate"
+				}
+			}
+			return r.kvs(xs) + " ; " + r.kvs(ys)
+		}
 	case "fill":
 		a, ok := parseBulk(t)
 		if !ok || r.ofInt == nil || (t[5] != "nat" && t[5] != "tall") {
@@ -915,6 +1124,20 @@ func (r *run[K]) step(t []string) string {
 			return "none"
 		}
 		r.held.setValue(v)
+		return "ok"
+	case "initcmp":
+		if len(t) != 2 || l.initWith == nil {
+			return "bad-op"
+		}
+		f := r.cmpTable(t[1])
+		if f == nil {
+			return "bad-op"
+		}
+		r.held = nil
+		l.initWith(f)
+		if r.dumpOn {
+			install(l.ptr, r.src)
+		}
 		return "ok"
 	case "clear":
 		if len(t) != 1 {
@@ -1026,7 +1249,7 @@ func newRunner(hdr []string) runner {
 	}
 	switch kt {
 	case "int":
-		r := &run[int]{src: src, parse: parseIntKey, show: strconv.Itoa, dumpOn: dumpOn, vdump: vdump, ofInt: func(i int) int { return i },
+		r := &run[int]{src: src, parse: parseIntKey, show: strconv.Itoa, dumpOn: dumpOn, vdump: vdump, ofInt: func(i int) int { return i }, cmpTable: intCmp,
 			showRV: func(v reflect.Value) string { return strconv.FormatInt(v.Int(), 10) }}
 		switch kind {
 		case "zero":
@@ -1051,7 +1274,7 @@ func newRunner(hdr []string) runner {
 		finish(r.l.ptr)
 		return r
 	case "str":
-		r := &run[string]{src: src, parse: parseStr, show: showStr, dumpOn: dumpOn, vdump: vdump,
+		r := &run[string]{src: src, parse: parseStr, show: showStr, dumpOn: dumpOn, vdump: vdump, cmpTable: strCmp,
 			showRV: func(v reflect.Value) string { return showStr(v.String()) }}
 		switch kind {
 		case "zero":
@@ -1254,6 +1477,7 @@ func check(c core.Case, out []string) *core.Failure {
 		return nil
 	}
 	held, hasHeld := "", false
+	var seqHeld [4]bool // Seq slots: a held Seq is a closure over the list, it enumerates the CURRENT bindings
 	initialised := kind != "zero"
 	zv := kind == "zero"
 	for i := 0; i < len(c.Lines); i++ {
@@ -1333,6 +1557,31 @@ func check(c core.Case, out []string) *core.Failure {
 				} else {
 					want = "0 false"
 				}
+			case "seq":
+				k, _ := strconv.Atoi(t[1])
+				seqHeld[k] = true
+				want = "ok"
+			case "seqrange", "seqtwice", "seqnest", "pull2":
+				k, _ := strconv.Atoi(t[1])
+				n, _ := strconv.Atoi(t[2])
+				es := sortedEnts()
+				switch {
+				case !seqHeld[k]:
+					want = "none"
+				case t[0] == "seqrange":
+					want = kvs(es, n)
+				case t[0] == "seqtwice":
+					want = kvs(es, n) + " ; " + kvs(es, 0)
+				case t[0] == "pull2":
+					want = kvs(es, n) + " ; " + kvs(es, 0)
+				default:
+					m := min(n, len(es))
+					cs := make([]string, m)
+					for j := range cs {
+						cs[j] = strconv.Itoa(len(es))
+					}
+					want = "outer=" + kvs(es, n) + " inner=" + strings.Join(cs, ",")
+				}
 			case "fill":
 				a, _ := parseBulk(t)
 				cnt := 0
@@ -1404,6 +1653,28 @@ func check(c core.Case, out []string) *core.Failure {
 					want = "nil"
 				}
 			case "clear":
+				ref, idx, dirty = nil, map[string]int{}, true
+				hasHeld = false
+				want = "ok"
+			case "initcmp":
+				// Init with another comparator: everything is reset, the new order rules from now on
+				cmpName = t[1]
+				if kt == "int" {
+					f := intCmp(cmpName)
+					cmp = func(a, b string) int {
+						x, _ := strconv.Atoi(a)
+						y, _ := strconv.Atoi(b)
+						return f(x, y)
+					}
+				} else {
+					f := strCmp(cmpName)
+					cmp = func(a, b string) int {
+						x, _ := parseStr(a)
+						y, _ := parseStr(b)
+						return f(x, y)
+					}
+				}
+				weak = cmpName == "half" || cmpName == "halfdiff" || cmpName == "lenonly"
 				ref, idx, dirty = nil, map[string]int{}, true
 				hasHeld = false
 				want = "ok"
@@ -1614,6 +1885,13 @@ func classify(c core.Case, out []string) []string {
 				ls = append(ls, t[0]+" (no node)")
 			default:
 				ls = append(ls, t[0]+" (node)")
+			}
+		}
+		if strings.HasPrefix(t[0], "seq") || t[0] == "pull2" {
+			if res == "none" {
+				ls = append(ls, t[0]+" (empty slot)")
+			} else {
+				ls = append(ls, t[0])
 			}
 		}
 		// a weak-order comparator found a stored key that differs from the argument
